@@ -864,11 +864,13 @@ func (c *Contracts) parseContractFile(path, pkgPath string) error {
 				return fail(l.n, "bad loop ordinal")
 			}
 			body := strings.TrimSpace(rest[k+1:])
-			isHint := strings.HasPrefix(body, "hint ")
+			// `backedge` is `hint` under the name that says what it is when used as a property: an assertion
+			// that must hold whenever the loop goes round again (may use head(e): e at this iteration's start)
+			isHint := strings.HasPrefix(body, "hint ") || strings.HasPrefix(body, "backedge ")
 			if !strings.HasPrefix(body, "invariant ") && !isHint {
-				return fail(l.n, "expected invariant or hint")
+				return fail(l.n, "expected invariant, hint or backedge")
 			}
-			text := strings.TrimPrefix(strings.TrimPrefix(body, "invariant "), "hint ")
+			text := strings.TrimPrefix(strings.TrimPrefix(strings.TrimPrefix(body, "invariant "), "hint "), "backedge ")
 			cl, err := parseClause(l.n, text)
 			if err != nil {
 				return err
